@@ -256,6 +256,9 @@ def attribute(diag: dict, prog: dict, prev: Any = None) -> Tuple[str, Set[str]]:
         # a check went missing on a call made while ANOTHER callable / object was being checked: only own re-entry
         # may go unchecked
         props.add("C10")
+    if props and diag.get("callee_async"):
+        # the divergence happened inside the call of a coroutine function: the async twin of a wrapper is concerned
+        props.add("C13")
     if props and any(f["async"] for f in prog["fn"]) and not any(
             f["async"] is False and f["kind"] not in ("init", "new", "repr", "setattr") for f in prog["fn"]):
         # only async callables are involved: whatever went wrong is (also) a sync/async discrepancy
